@@ -210,6 +210,17 @@ func (db *DB) Since(n int) []*Stmt {
 	return append([]*Stmt(nil), db.Stmts[n:]...)
 }
 
+var reOrderFp = regexp.MustCompile(`(?i)ORDER BY\s+(?:\w+\.)?fingerprint\s+(asc|desc)`)
+
+func hasCol(cols []string, c string) bool {
+	for _, x := range cols {
+		if x == c {
+			return true
+		}
+	}
+	return false
+}
+
 var reOrderTs = regexp.MustCompile(`(?i)ORDER BY[^()]*?timestamp_ns\s+(asc|desc)`)
 
 var (
@@ -462,6 +473,18 @@ func (c *conn) QueryContext(ctx context.Context, q string, args []driver.NamedVa
 			})
 		}
 	}
+	if m := reOrderFp.FindAllStringSubmatch(q, -1); len(m) > 0 && hasCol(st.Cols, "timestamp_ms") {
+		// the PromQL adapter's statement asks for its samples series by series (ORDER BY fingerprint, timestamp_ms) and
+		// relies on it: rows of one series interleaved with another's are not a result set this statement can have
+		data = append([]Row(nil), data...)
+		desc := strings.EqualFold(m[len(m)-1][1], "desc")
+		sort.SliceStable(data, func(i, j int) bool {
+			if desc {
+				return data[i].Fp > data[j].Fp
+			}
+			return data[i].Fp < data[j].Fp
+		})
+	}
 	if res.Complexity > 0 && len(st.Cols) == 1 && len(data) == 0 {
 		data = []Row{{}}
 	}
@@ -626,7 +649,11 @@ func ValueFor(col, sqlText string, row Row, idx int, ncols int, res *Result) dri
 		return row.Labels
 	case "string", "payload", "line":
 		return row.Line
-	case "timestamp_ns", "ts", "timestamp_ms", "start_time_unix_nano", "starttimeunixnano":
+	case "timestamp_ms":
+		// (milliseconds: the PromQL adapter reads this column; served as nanoseconds every sample lay in the far future
+		// and no PromQL query ever returned a point)
+		return row.TsNs / 1000000
+	case "timestamp_ns", "ts", "start_time_unix_nano", "starttimeunixnano":
 		return row.TsNs
 	case "value":
 		return row.Value
